@@ -1,0 +1,169 @@
+//go:build verif
+
+package art
+
+import "unsafe"
+
+// Verification-only exports of the in-node primitives and a bare node
+// handle (build tag "verif"). The wrappers add no behaviour of their own.
+
+func VerifSearchNode4(keys uint32, b byte) int    { return searchNode4(keys, b) }
+func VerifInsertPosNode4(keys uint32, b byte) int { return insertPosNode4(keys, b) }
+func VerifGetAtPos(keys uint32, pos int) byte     { return getAtPos(keys, pos) }
+func VerifSetAtPos(keys uint32, pos int, b byte) uint32 {
+	setAtPos(&keys, pos, b)
+	return keys
+}
+func VerifShiftLeftClear(keys uint32, pos int) uint32 {
+	shiftLeftClear(&keys, pos)
+	return keys
+}
+func VerifShiftRightClear(keys uint32, pos int) uint32 {
+	shiftRightClear(&keys, pos)
+	return keys
+}
+func VerifConstruct(a, b, c, d byte) uint32 { return construct(a, b, c, d) }
+func VerifDeconstruct(keys uint32) []byte   { return deconstruct(keys) }
+
+func VerifSearchNode16(keys *[16]byte, n uint8, b byte) int    { return searchNode16(keys, n, b) }
+func VerifInsertPosNode16(keys *[16]byte, n uint8, b byte) int { return insertPosNode16(keys, n, b) }
+
+// VerifNode is one inner node driven directly through the same
+// addChild/deleteChild/findChild entry points the trees use. Its children
+// are real leaves holding the branch byte as key and an int id as value.
+type VerifNode struct {
+	ref nodeRef
+}
+
+func NewVerifNode() *VerifNode {
+	n4 := nodePools[nodeKind4].Get().(*node4)
+	return &VerifNode{ref: nodeRef{pointer: unsafe.Pointer(n4), tag: nodeKind4}}
+}
+
+// Add registers a new child under b. Precondition (as guaranteed by the
+// trees): b is not registered and the handle is still an inner node.
+func (v *VerifNode) Add(b byte, id int) {
+	kb := new(byte)
+	*kb = b
+	leaf := &alphaLeafNode[int]{key: kb, value: id, len: 1}
+	v.ref.addChild(b, nodeRef{pointer: unsafe.Pointer(leaf), tag: nodeKindLeaf})
+}
+
+// Remove unregisters b. Precondition (as guaranteed by the trees): b is
+// registered. When a 4-slot node is left with a single child the handle
+// collapses into that child exactly as a tree's reference would.
+func (v *VerifNode) Remove(b byte) { v.ref.deleteChild(b) }
+
+// Kind is 4, 16, 48, 256, or 0 once the handle has collapsed into a leaf.
+func (v *VerifNode) Kind() int {
+	switch v.ref.tag {
+	case nodeKind4:
+		return 4
+	case nodeKind16:
+		return 16
+	case nodeKind48:
+		return 48
+	case nodeKind256:
+		return 256
+	}
+	return 0
+}
+
+func (v *VerifNode) Len() int {
+	if v.Kind() == 0 {
+		return 0
+	}
+	return int(v.ref.node().childrenLen)
+}
+
+func (v *VerifNode) Find(b byte) (int, bool) {
+	if v.Kind() == 0 {
+		return 0, false
+	}
+	c := v.ref.findChild(b)
+	if c == nil {
+		return 0, false
+	}
+	if c.tag != nodeKindLeaf || c.pointer == nil {
+		return -1, true
+	}
+	return (*alphaLeafNode[int])(c.pointer).value, true
+}
+
+func verifNodeRestore(p unsafe.Pointer) (string, int) {
+	l := (*alphaLeafNode[int])(p)
+	return string(l.getKey()), l.value
+}
+
+// Enumerate runs the real forward iteration over the node.
+func (v *VerifNode) Enumerate() (bs []byte, ids []int) {
+	for k, id := range all[string, int](v.ref, verifNodeRestore) {
+		bs = append(bs, k[0])
+		ids = append(ids, id)
+	}
+	return
+}
+
+// EnumerateBackward runs the real backward iteration over the node.
+func (v *VerifNode) EnumerateBackward() (bs []byte, ids []int) {
+	for k, id := range backward[string, int](v.ref, verifNodeRestore) {
+		bs = append(bs, k[0])
+		ids = append(ids, id)
+	}
+	return
+}
+
+func (v *VerifNode) Min() (byte, int, bool) {
+	p := minimum[int](v.ref)
+	if p == nil {
+		return 0, 0, false
+	}
+	k, id := verifNodeRestore(p)
+	return k[0], id, true
+}
+
+func (v *VerifNode) Max() (byte, int, bool) {
+	p := maximum[int](v.ref)
+	if p == nil {
+		return 0, 0, false
+	}
+	k, id := verifNodeRestore(p)
+	return k[0], id, true
+}
+
+// Lanes returns a copy of the raw key lanes of a 4- or 16-slot node
+// (occupied and unoccupied), nil for the other classes.
+func (v *VerifNode) Lanes() []byte {
+	switch v.ref.tag {
+	case nodeKind4:
+		return deconstruct((*node4)(v.ref.pointer).keys)
+	case nodeKind16:
+		n16 := (*node16)(v.ref.pointer)
+		c := make([]byte, len(n16.keys))
+		copy(c, n16.keys[:])
+		return c
+	}
+	return nil
+}
+
+// PokeLane overwrites one *unoccupied* key lane of a 4- or 16-slot node.
+// It refuses (returns false) for occupied lanes and other classes.
+func (v *VerifNode) PokeLane(i int, b byte) bool {
+	switch v.ref.tag {
+	case nodeKind4:
+		n4 := (*node4)(v.ref.pointer)
+		if i < int(n4.childrenLen) || i >= int(maxNode4) {
+			return false
+		}
+		setAtPos(&n4.keys, i, b)
+		return true
+	case nodeKind16:
+		n16 := (*node16)(v.ref.pointer)
+		if i < int(n16.childrenLen) || i >= int(maxNode16) {
+			return false
+		}
+		n16.keys[i] = b
+		return true
+	}
+	return false
+}
